@@ -14,7 +14,8 @@ Run(d, p) == LET e == [act |-> "run", d |-> d, p |-> p, rb |-> rng, ra |-> rng, 
 Tmp(kind) == last' = [act |-> kind, d |-> 0, p |-> 0, rb |-> rng, ra |-> rng, res |-> NoResult, exc |-> ""] /\ rng' = rng /\ seen' = seen
 Seed(v) == last' = [act |-> "seed", d |-> 0, p |-> 0, rb |-> rng, ra |-> v, res |-> NoResult, exc |-> ""] /\ rng' = v /\ seen' = seen
 Draw == last' = [act |-> "draw", d |-> 0, p |-> 0, rb |-> rng, ra |-> (rng + 1) % NR, res |-> NoResult, exc |-> ""] /\ rng' = (rng + 1) % NR /\ seen' = seen
-Next == (\E d \in 0..(ND - 1), p \in 0..(NP - 1) : Run(d, p)) \/ Tmp("tmpok") \/ Tmp("tmpraise") \/ (\E v \in 0..(NR - 1) : Seed(v)) \/ Draw
+Gauss == last' = [act |-> "gauss", d |-> 0, p |-> 0, rb |-> rng, ra |-> (rng + 2) % NR, res |-> NoResult, exc |-> ""] /\ rng' = (rng + 2) % NR /\ seen' = seen
+Next == (\E d \in 0..(ND - 1), p \in 0..(NP - 1) : Run(d, p)) \/ Tmp("tmpok") \/ Tmp("tmpraise") \/ (\E v \in 0..(NR - 1) : Seed(v)) \/ Draw \/ Gauss
 Spec == Init /\ [][Next]_vars
 Inv_Rng == C09_RngUntouched(last)
 Prop_Reproducible == [][C09_SameAsBefore(seen, last')]_vars
